@@ -81,10 +81,12 @@ class _PyflybyHandler(Handler):
         try:
             yield
         finally:
-            if self._logged_anything_during_context:
-                post()
+            try:
+                if self._logged_anything_during_context:
+                    post()
+            finally:
                 self._logged_anything_during_context = False
-            self._pre_log_function = None
+                self._pre_log_function = None
 
 
 def _is_interactive(file):
